@@ -206,7 +206,8 @@ NamedConfigs == <<
   (* 6 *) << Set("imsc_writer", "time_format", "\"frames\"", VStr("frames", {}), "valid"), Fps25 >>,
   (* 7 *) << Set("imsc_writer", "time_format", "\"frames\"", VStr("frames", {}), "valid") >>,          \* fps missing
   (* 8 *) << Set("vtt_writer", "line_position", "true", VBool(TRUE), "valid"), Set("vtt_writer", "text_align", "true", VBool(TRUE), "valid"),
-             Set("vtt_writer", "cue_id", "false", VBool(FALSE), "valid"), Set("scc_reader", "text_align", "\"center\"", VStr("center", {}), "valid") >>
+             Set("vtt_writer", "cue_id", "false", VBool(FALSE), "valid"), Set("scc_reader", "text_align", "\"center\"", VStr("center", {}), "valid"),
+             Set("srt_writer", "text_formatting", "false", VBool(FALSE), "valid") >>
 >>
 NCat == Len(CatSeq)
 Configs == TLCEval([i \in 1..(NCat + Len(NamedConfigs)) |->
@@ -306,9 +307,9 @@ OtherJobs ==
 \* namespaces, use every reader and writer, a filter and the language override
 HistJobs ==
   { Job("convert", "ttml", "-", ".ttml", "-", ".ttml", 0, Named(4), <<>>),
-    Job("convert", "scc", "SCC", ".txt", "-", ".ttml", 0, Named(8), <<>>),
+    Job("convert", "scc", "SCC", ".txt", "-", ".srt", 0, Named(8), <<>>),
     Job("convert", "stl", "-", ".stl", "-", ".vtt", Named(1), Named(3), <<>>),
-    Job("convert", "vtt", "-", ".vtt", "-", ".srt", 0, 0, <<>>),
+    Job("convert", "vtt", "-", ".vtt", "-", ".ttml", 0, 0, <<>>),          \* no configuration at all: whatever an earlier job configured must not linger
     Job("convert", "srt", "-", ".srt", "TTML", ".out", 0, Named(5), <<"lcd">>),
     Job("convert", "ttml", "-", ".ttml", "-", ".vtt", 0, Named(8), <<"stampa">>) }
 
